@@ -475,7 +475,8 @@ func c11Adversarial(r *mon.Run, key *world.Key, jr *rand.Rand, idx int) {
 		} else if mustAccept {
 			c11Rejected(r, family, desc, d, t.cred, nil)
 		}
-		if !ok && pv == nil {
+		if !ok && pv == nil && countSmall(recv) < 2 {
+			// (proofs with two candidate revocation responses are left out: their verdict depends on map order, known finding)
 			// a verifier trying again on the object it has just refused (a retry; Verify followed by ProofList.Verify): what the first
 			// attempt left in the object must not make the second one accept
 			ok2, pv2, _ := verifyList(gabi.ProofList{recv}, pks, ctx, nonce, false, nil)
